@@ -736,8 +736,9 @@ def _handle_dict(target, spec, scope):
                 break
         else:
             raise MatchError("key {0!r} didn't match any of {1!r}", key, spec_keys)
-    for key in set(defaults) - set(result):
-        result[key] = arg_val(target, defaults[key], scope)
+    for key in defaults:  # (in the order of the pattern, not of a set)
+        if key not in result:
+            result[key] = arg_val(target, defaults[key], scope)
     if required:
         # (in the order the pattern lists them: required is a set, and Required()
         # objects hash by address)
